@@ -228,6 +228,12 @@ def eqAtom (name : List Char) (off : Int) : List Char := name ++ '[' :: 't' :: (
 /-- `solved_values(n, index)`, `solved_values(n, index-1)`, … -/
 def fAtom (n : Nat) (off : Int) : List Char := refText n ('t' :: offChars off)
 
+/-- `max(x₁, x₂, x₃, …)` / `min(…)` with more than two arguments (any number ≥ 2 is allowed in Python and in Fortran)
+    is read as the left fold of the binary call: the same value on finite numbers in both languages, and the same
+    typing verdict in Fortran (all arguments of one type). -/
+def Expr.fnMany {α} (f : Fn2) (x y : Expr α) (rest : List (Expr α)) : Expr α :=
+  rest.foldl (fun acc z => .fn2 f acc z) (.fn2 f x y)
+
 /-- The real operators of one floating-point kind.  Theorems quantify over every instance. -/
 structure RealOps (F : Type) where
   ofInt : Int → F
